@@ -169,11 +169,19 @@ pub fn roll_case_strategy(profile: Profile) -> BoxedStrategy<LogCase> {
         2 => (any::<u16>(), any::<u16>()).prop_map(|(a, b)| LogOp::Read { a, b }),
         w_reopen => Just(LogOp::Reopen),
         1 => Just(LogOp::BumpTerm),
+        // in roll-over scenarios a compaction pointer is placed within the last 3000 entries (see logl2)
+        2 => any::<u16>().prop_map(|at| LogOp::CompactPointer { at }),
     ];
-    (any::<bool>(), prop_oneof![3 => 0u16..6, 3 => 6u16..140, 2 => 140u16..400], prop::collection::vec(op, 4..14))
-        .prop_map(|(big, stop, mut ops)| {
-            ops.insert(0, LogOp::FillToRollover { big, stop });
-            LogCase { start_index: 1, pre_term: 0, ops }
+    // optional prefix: some thousand entries and a compaction pointer inside the file that is going to be filled
+    let prefix = prop_oneof![
+        1 => Just(vec![]),
+        1 => (300u16..6000, any::<u16>()).prop_map(|(n, at)| vec![LogOp::AppendMany { n, size: SizeClass::Small(70), batch: true }, LogOp::CompactPointer { at }]),
+    ];
+    (any::<bool>(), prop_oneof![3 => 0u16..6, 3 => 6u16..140, 2 => 140u16..400], prefix, prop::collection::vec(op, 4..14))
+        .prop_map(|(big, stop, mut prefix, ops)| {
+            prefix.push(LogOp::FillToRollover { big, stop });
+            prefix.extend(ops);
+            LogCase { start_index: 1, pre_term: 0, ops: prefix }
         })
         .boxed()
 }
